@@ -410,8 +410,10 @@ def _m24():
                 uniques.append(p)
         return uniques
     bpath.uniquetrees = uniquetrees
-    import vpx.harness.c12 as h
-    h.uniquetrees = uniquetrees
+    import sys
+    h = sys.modules.get('vpx.harness.c12')
+    if h is not None:
+        h.uniquetrees = uniquetrees
 
 
 def _make_writer_regex(which, pattern):
@@ -736,3 +738,17 @@ def _m50():
             raise ValueError('"x-" prefix is reserved')
         return parser.add_argument(*names, **kwargs)
     ap.add_user_argument = add_user_argument
+
+
+@mutant('glob_starstar_flag_sticky')
+def _m51():
+    # the "previous token was **" flag is only reset by literal components
+    _glob_variant("""            starstar = False
+            if cls._is_glob(i):
+                globs[-1].append(re.compile(fnmatch.translate(i)).match)
+            else:
+                assert i""", """            if cls._is_glob(i):
+                globs[-1].append(re.compile(fnmatch.translate(i)).match)
+            else:
+                starstar = False
+                assert i""")
